@@ -56,16 +56,18 @@ def check_case(keys, arrays, common, acc):
         return
     if not (loaded == saved) or not (saved == loaded):
         acc.violation("roundtrip:index-unequal", case, "iindex(*loaded) != saved index")
-    try:
-        saved.validate(True)
-        ok = True
-    except ValueError:
-        ok = False
-    if ok:
+    # well-formedness decided by the harness itself (not by the library's validator, which is part of what is being checked)
+    wf = all(k[0] != common for k in keys) and all(all(b > a2 for a2, b in zip(a, a[1:])) for a in arrays)
+    if wf:
+        cols = {}
+        for k, a in zip(keys, arrays):
+            cols.setdefault(tuple(k[1:]), []).append(set(a))
+        wf = all(not (x & y) for sets in cols.values() for i, x in enumerate(sets) for y in sets[i + 1:])
+    if wf:
         try:
             loaded.validate(True)
-        except ValueError as e:
-            acc.violation("roundtrip:loaded-invalid", case, repr(e))
+        except Exception as e:  # noqa
+            acc.violation("roundtrip:loaded-invalid", case, "the rebuilt index is well-formed but validate(True) raised %r" % (e,))
 
 
 def nontrivial(keys, arrays, common):
